@@ -250,7 +250,14 @@ def enc_cases_hex(E, ctx):
     """hex-prefix encoding as an opaque bijection (trie-level view): HPK(path, is_leaf) with hp_path / hp_flag as
     inverse; justified by lemma hp_roundtrip"""
     from contracts import hexmodel as HM
+    from pyvc.sym import ListObj
+    if isinstance(ctx.nibbles, ListObj) and ctx.nibbles.items is not None:
+        ctx.nibbles = tuple(ctx.nibbles.items)          # a list of nibbles is read like a tuple
     t = ops.seq_term_as(ctx.nibbles, "int")
+    side0 = []
+    allnib_of(t, side0, B2N)                       # definitional equations for allnib on the constructors of t
+    for f in side0:
+        E.assume(mk_bool(f))
     # definition of allnib at the last element
     E.assume(mk_bool(z3.Implies(z3.And(allnib(t), z3.Length(t) > 0),
                                 z3.And(t[z3.Length(t) - 1] >= 0, t[z3.Length(t) - 1] <= 15))))
